@@ -556,3 +556,14 @@ Inductive conflict (sch : schema) (rq : request) : Prop :=
 
 (** what a request without errors is about: used to state identity in plain terms *)
 Definition answer_status (o : outcome) : option Z := match o with Resp st _ _ _ => Some st | Panic => None end.
+
+(** ** 5. The parameter-name grammar, declaratively (validated against [supported_parameter] in
+    JsonApiProofs.v): family *( "[" member "]" ) *)
+Definition bracketed (m : bytes) : bytes := 91%N :: m ++ [93%N].
+Definition parameter_name (family : bytes) (members : list bytes) : bytes :=
+  family ++ List.concat (map bracketed members).
+Definition well_formed_parameter (k : bytes) : Prop :=
+  exists family members,
+    k = parameter_name family members /\
+    member_name family = true /\ Forall (fun m => member_name m = true) members /\
+    (forallb is_lower_az family = true -> family = s_page).
